@@ -43,9 +43,14 @@ func burnFields(b *types.BurnMessage) M {
 func cmdCodec(bw *bufio.Writer, n int, seed int64) {
 	r := rand.New(rand.NewSource(seed))
 	id := 0
+	var prevIn any // for vectors decoded into a reused receiver: the input that was decoded into it before
 	emit := func(kind string, in any, obs M) {
 		id++
-		bz, _ := json.Marshal(M{"id": id, "kind": kind, "in": in, "obs": obs})
+		rec := M{"id": id, "kind": kind, "in": in, "obs": obs}
+		if prevIn != nil {
+			rec["prev"] = prevIn
+		}
+		bz, _ := json.Marshal(rec)
 		bw.Write(bz)
 		bw.WriteByte('\n')
 	}
@@ -104,6 +109,47 @@ func cmdCodec(bw *bufio.Writer, n int, seed int64) {
 		parseMsg(rnd(116 + r.Intn(200)))
 		parseBurn(rnd(132))
 	}
+	// decoders on a REUSED receiver: what an earlier input left in the value must not leak into the next result
+	reusedM, reusedB := new(types.Message), new(types.BurnMessage)
+	var lastM, lastB any = []int{}, []int{}
+	for k := 0; k < n/4+40; k++ {
+		l := []int{116, 116, 117, 248, 116 + r.Intn(100), 115, 0}[r.Intn(7)]
+		bz := rnd(l)
+		obs := M{"res": "err", "fields": 0, "reenc": 0}
+		res := guard(func() {
+			m, err := reusedM.Parse(append([]byte{}, bz...))
+			if err == nil {
+				obs["res"], obs["fields"] = "ok", msgFields(m)
+				if re, err2 := m.Bytes(); err2 == nil {
+					obs["reenc"] = ints(re)
+				}
+			}
+		})
+		if res == "panic" {
+			obs["res"] = "panic"
+		}
+		prevIn = lastM
+		emit("msg_parse", ints(bz), obs)
+		lastM = ints(bz)
+		bb := rnd([]int{132, 132, 131, 133}[r.Intn(4)])
+		obsb := M{"res": "err", "fields": 0, "reenc": 0}
+		res = guard(func() {
+			b, err := reusedB.Parse(append([]byte{}, bb...))
+			if err == nil {
+				obsb["res"], obsb["fields"] = "ok", burnFields(b)
+				if re, err2 := b.Bytes(); err2 == nil {
+					obsb["reenc"] = ints(re)
+				}
+			}
+		})
+		if res == "panic" {
+			obsb["res"] = "panic"
+		}
+		prevIn = lastB
+		emit("burn_parse", ints(bb), obsb)
+		lastB = ints(bb)
+	}
+	prevIn = nil
 	// encoders: well-formed and ill-formed field sizes
 	sizes := []int{32, 32, 32, 32, 32, 32, 0, 1, 20, 31, 33, 64}
 	boundary := []*big.Int{big.NewInt(0), big.NewInt(1), new(big.Int).Lsh(big.NewInt(1), 64), new(big.Int).Lsh(big.NewInt(1), 255),
@@ -190,14 +236,22 @@ func cmdCodecReplay(rd *os.File, bw *bufio.Writer) {
 		res := guard(func() {
 			switch kind {
 			case "msg_parse":
-				if m, err := new(types.Message).Parse(toBytes(rec["in"])); err == nil {
+				recv := new(types.Message)
+				if rec["prev"] != nil {
+					recv.Parse(toBytes(rec["prev"]))
+				}
+				if m, err := recv.Parse(toBytes(rec["in"])); err == nil {
 					obs["res"], obs["fields"] = "ok", msgFields(m)
 					if re, err2 := m.Bytes(); err2 == nil {
 						obs["reenc"] = ints(re)
 					}
 				}
 			case "burn_parse":
-				if b, err := new(types.BurnMessage).Parse(toBytes(rec["in"])); err == nil {
+				recvb := new(types.BurnMessage)
+				if rec["prev"] != nil {
+					recvb.Parse(toBytes(rec["prev"]))
+				}
+				if b, err := recvb.Parse(toBytes(rec["in"])); err == nil {
 					obs["res"], obs["fields"] = "ok", burnFields(b)
 					if re, err2 := b.Bytes(); err2 == nil {
 						obs["reenc"] = ints(re)
